@@ -30,6 +30,9 @@ pub const KINDS: &[&str] = &[
     "Creator:me\u{1a}", "\u{1a}", "osu file format v9\u{1a}", "[Metadata]\u{1a}", "Title:t\u{7f}", "\u{c}// ff",
     // a CR in front (what "LF CR" line ends leave at the start of the next line)
     "\r[Events]", "\rosu file format v9", "\r", "\r// c", "\rTitle:x", "\r\r[General]",
+    // records that disagree with an earlier kind at the same time / for the same key (whatever sits between them —
+    // a header, a comment, a blank line — must not decide which one wins)
+    "10,400,4,2,0,50,1,1", "10,-50,4,2,0,60,0,0", "Mode: 3", "Title:other", "Combo1: 9,9,9", "OSU FILE FORMAT V9", "osu File Format v9",
 ];
 
 /// Characters whose UTF-16 code units contain the byte 0x0A (or 0x0D): framing must not be confused by them.
@@ -163,9 +166,29 @@ impl Scenario for C05 {
                 let keep = 2 + rng.below(p.data.len() - 1);
                 p.data.truncate(keep);
                 p.faults.push("S1-truncate-utf16".into());
-            } else {
+            } else if rng.chance(1, 2) {
                 p.data.push(*rng.pick(&[0x0Au8, 0x00, 0x0D, 0x5B, 0xD8, 0xFF]));
                 p.faults.push("S1-dangling-byte-utf16".into());
+            } else {
+                // a stray surrogate code unit at a unit-aligned place: right after the BOM, right after or before a line
+                // feed, or anywhere (inside a header, in front of a comment marker, ...)
+                let le = e == 2;
+                let units = (p.data.len() - 2) / 2;
+                let lf: Vec<usize> = (0..units).filter(|&u| {
+                    let (a, b) = (p.data[2 + 2 * u], p.data[3 + 2 * u]);
+                    if le { a == 0x0A && b == 0 } else { a == 0 && b == 0x0A }
+                }).collect();
+                let at_unit = match rng.below(4) {
+                    0 => 0,
+                    1 if !lf.is_empty() => *rng.pick(&lf) + 1,
+                    2 if !lf.is_empty() => *rng.pick(&lf),
+                    _ => rng.below(units + 1),
+                };
+                let u: u16 = *rng.pick(&[0xDC00u16, 0xDFFF, 0xD800, 0xDBFF, 0xDE00]);
+                let b = if le { u.to_le_bytes() } else { u.to_be_bytes() };
+                let at = 2 + 2 * at_unit.min(units);
+                p.data.splice(at..at, b);
+                p.faults.push("S6-stray-surrogate-utf16".into());
             }
         }
         p.set("enc", e as i64);
